@@ -27,6 +27,10 @@ def bases(ctx, tier):
     t6 = dict(t5); t6["keep.tmp"] = b"re-included"; t6["d/x.tmp"] = b"ignored (glob)"; t6["d/a.txt"] = b"same name as the anchored one"
     B["ignore-negated-anchored"] = (ops.build(ctx, t6, [c("", ["xxh64"], i=["*.tmp", "!keep.tmp", "/a.txt"])], expect=[0]),
                                     ["*.tmp", "!keep.tmp", "/a.txt"])
+    # a path that changed its type between two sealed generations (directory -> file, file -> directory)
+    t7 = dict(T); t7["was-dir"] = DIR
+    B["retyped-paths"] = (ops.build(ctx, t7, [c("", ["md5"]), ["rm", "was-dir"], ["write", "was-dir", b"now a file"], ["rm", "a.txt"],
+                                              ["mkdir", "a.txt"], ["write", "a.txt/inner.bin", b"inner"], c("", ["md5"])], expect=[0, None]), [])
     B["failed-generation"] = (ops.build(ctx, T, [c("", ["md5"]), ["write", "a.txt", FAILED_CONTENT], c("", ["md5"]),
                                                  ["write", "a.txt", T["a.txt"]]], expect=[0, 11]), [])
     B["empty-folder"] = (ops.build(ctx, {}, [c("", ["xxh64"])], expect=[0]), [])
@@ -49,6 +53,8 @@ def mutations(tree, pats, base_name):
         if cont is DIR:
             if not any(q.startswith(p + "/") for q in med):
                 out.append((f"rmdir {p}", ["rm", p]))
+                if not ign:   # the recorded (empty) directory is replaced by a file of the same name
+                    out.append((f"dir-becomes-file {p}", ["seq", ["rm", p], ["write", p, b"was a directory"]]))
             out.append((f"add {p}/new.bin", ["write", p + "/new.bin", b"new file"]))
             out.append((f"touch {p}", ["touch", p]))
             continue
@@ -62,6 +68,8 @@ def mutations(tree, pats, base_name):
         out.append((f"truncate {p}", ["write", p, cont[:-3]]))
         out.append((f"empty {p}", ["write", p, b""]))
         out.append((f"delete {p}", ["rm", p]))
+        if p.count("/") <= 1 and not ref.is_in_ascmhl(p):   # the recorded file is replaced by a directory of the same name
+            out.append((f"file-becomes-dir {p}", ["seq", ["rm", p], ["mkdir", p], ["write", p + "/inner.bin", b"inside the new directory"]]))
         out.append((f"touch {p}", ["touch", p]))
     out.append(("add new.bin", ["write", "new.bin", b"new file in root"]))
     out.append(("touch .", ["touch", ""]))
@@ -80,11 +88,14 @@ def apply_muts(tree, muts):
             if e[1] == "" or e[1] in t:
                 mt[e[1]] = sub.T0 + 777
         else:
-            if e[0] == "write" and ref.parent(e[1]) and ref.parent(e[1]) not in t:
-                return None, None
-            if e[0] == "rm" and e[1] not in t:
-                return None, None
-            t = ops.edit(t, e)
+            for e1 in (e[1:] if e[0] == "seq" else [e]):
+                if e1[0] in ("write", "mkdir") and ref.parent(e1[1]) and t.get(ref.parent(e1[1]), 0) is not DIR:
+                    return None, None
+                if e1[0] == "rm" and (e1[1] not in t or any(q.startswith(e1[1] + "/") for q in t)):
+                    return None, None
+                if e1[0] in ("write", "mkdir") and t.get(e1[1], 0) is DIR:
+                    return None, None
+                t = ops.edit(t, e1)
     return t, mt
 
 
@@ -96,8 +107,10 @@ def classify(base_tree, mut_tree, pats):
     for p, c in b.items():
         if ref.ignored(allp, p, c is DIR):
             continue
-        if p not in m:
-            removed.append(p)
+        if p not in m or (c is DIR) != (m[p] is DIR):
+            removed.append(p)   # gone, or no longer an entry of the recorded type
+            if p in m and m[p] is not DIR:
+                new.append(p)   # ... and the file now at that path was never recorded
         elif c is not DIR and m[p] is not DIR and m[p] != c:
             altered.append(p)
     for p, c in m.items():
@@ -128,6 +141,8 @@ def eval_case(ctx, case):
         v.append(Viol(PROP, kind, dict(sig, **extra), detail, case))
 
     want = {CODES[cmd][k] for k in present if present[k] and k in CODES[cmd]}
+    if present["altered"] and cmd in ("verify", "create"):
+        want = {11}   # "if a recorded file's content was altered, verify and create exit with 11" - whatever else changed
     desc = f"{case['name']} + {[m[0] for m in muts]} -> {cmd}"
     if res.exc is not None:
         V("abort", f"{desc}: exit {res.exit} {res.exc} {res.tb}", exc=res.exc.split(":")[0])
